@@ -590,6 +590,9 @@ def bad_payload_without_subscriber(ctx: Ctx) -> None:
 
 
 def shard(ctx: Ctx) -> None:
+    from vf.sim import device as _device
+
+    _device.AUTO_ROTATE = True   # chunking of the device's stream rotates: as written / replies coalesced / cut into 1..8-byte pieces
     bad_payload_without_subscriber(ctx)
     undefined_frames_and_keepalive(ctx)
     crossing_disconnects(ctx)
